@@ -75,6 +75,7 @@ pub enum NameArg {
     Max255,
     Upper,
     Reshaped, // same wire length as the current name, first two labels merged into one
+    Trailing, // a valid name followed by more bytes in the same slice (a scratch buffer, a slice into another packet)
     Bad64,
     BadUnterminated,
     BadPointer,
@@ -85,7 +86,7 @@ pub enum NameArg {
     Huge, // valid 255-byte name; fails only when the packet would exceed 65535 bytes
 }
 
-pub const NAMES_OK: [NameArg; 8] = [NameArg::Root, NameArg::X, NameArg::YyX, NameArg::SameLen, NameArg::PlusLabel, NameArg::Max255, NameArg::Upper, NameArg::Reshaped];
+pub const NAMES_OK: [NameArg; 9] = [NameArg::Root, NameArg::X, NameArg::YyX, NameArg::SameLen, NameArg::PlusLabel, NameArg::Max255, NameArg::Upper, NameArg::Reshaped, NameArg::Trailing];
 pub const NAMES_BAD: [NameArg; 7] = [NameArg::Bad64, NameArg::BadUnterminated, NameArg::BadPointer, NameArg::Empty, NameArg::BadCtrl, NameArg::BadDot, NameArg::BadBackslash];
 
 pub fn name_arg(a: NameArg, current: &[u8]) -> Vec<u8> {
@@ -116,6 +117,11 @@ pub fn name_arg(a: NameArg, current: &[u8]) -> Vec<u8> {
         }
         NameArg::Max255 | NameArg::Huge => name_of_wire_len(255),
         NameArg::Upper => nm("UP.x"),
+        NameArg::Trailing => {
+            let mut n = nm("tr.x");
+            n.extend_from_slice(&[0, 1, 0, 1, 0xde, 0xad, 0, 0, 0, 5]);
+            n
+        }
         NameArg::Reshaped => {
             // [l1 ..][l2 ..] rest  ->  [l1+l2+1 .. 'j' ..] rest : same length, other label boundaries
             let n = current.to_vec();
